@@ -612,3 +612,138 @@ def keygen_reads_pyca(scr, kt, fmt, public=False):
         ok = False
     _kg_cap[ck] = ok
     return ok
+
+
+# --------------------------------------------------------------------------
+# openssl CLI as a third independent reader / writer (all legacy ciphers)
+# --------------------------------------------------------------------------
+
+OPENSSL = shutil.which('openssl')
+_ossl = {}
+
+
+def openssl_legacy():
+    """['-provider', 'legacy', '-provider', 'default'] if the legacy provider
+    (DES, RC4, Blowfish, CAST5, MD5-based PBE) can be loaded, else []."""
+    if 'leg' not in _ossl:
+        leg = ['-provider', 'legacy', '-provider', 'default']
+        ok = False
+        if OPENSSL:
+            try:
+                p = subprocess.run([OPENSSL, 'list', '-providers'] + leg,
+                                   stdout=subprocess.PIPE,
+                                   stderr=subprocess.PIPE, timeout=60)
+                ok = p.returncode == 0 and b'legacy' in p.stdout
+            except (OSError, subprocess.TimeoutExpired):
+                ok = False
+        _ossl['leg'] = leg if ok else []
+    return _ossl['leg']
+
+
+def openssl(args, stdin=None):
+    for timeout in (60, 600):
+        try:
+            p = subprocess.run([OPENSSL] + args + openssl_legacy(),
+                               input=stdin, stdout=subprocess.PIPE,
+                               stderr=subprocess.PIPE, timeout=timeout)
+            return p.returncode, p.stdout, p.stderr
+        except subprocess.TimeoutExpired:
+            if timeout == 600:
+                raise
+    raise AssertionError
+
+
+def openssl_must_read(fmt, enc):
+    if enc is None or openssl_legacy():
+        return True
+    return enc[0] in ('aes128-cbc', 'aes192-cbc', 'aes256-cbc', 'des3-cbc',
+                      'des2-cbc') and not (enc[2] == 1 and enc[1] == 'md5')
+
+
+def openssl_public_der(scr, data, fmt, pw):
+    """SubjectPublicKeyInfo DER of the private key in `data` as read by
+    openssl, or None if openssl cannot read / decrypt it."""
+    f = scr.write('ossl_in', data)
+    args = ['pkey', '-in', f, '-pubout', '-outform', 'DER']
+    if fmt.endswith('-der'):
+        args += ['-inform', 'DER']
+    args += ['-passin', 'pass:' + (pw if pw is not None else '')]
+    rc, out, _ = openssl(args)
+    return out if rc == 0 and out else None
+
+
+OSSL_V1 = {('des3-cbc', 'sha1'): 'PBE-SHA1-3DES',
+           ('des2-cbc', 'sha1'): 'PBE-SHA1-2DES',
+           ('rc4-128', 'sha1'): 'PBE-SHA1-RC4-128',
+           ('rc4-40', 'sha1'): 'PBE-SHA1-RC4-40',
+           ('des-cbc', 'md5'): 'PBE-MD5-DES',
+           ('des-cbc', 'sha1'): 'PBE-SHA1-DES'}
+OSSL_CIPHER = {'aes128-cbc': 'aes-128-cbc', 'aes192-cbc': 'aes-192-cbc',
+               'aes256-cbc': 'aes-256-cbc', 'des3-cbc': 'des-ede3-cbc',
+               'des-cbc': 'des-cbc', 'blowfish-cbc': 'bf-cbc',
+               'cast128-cbc': 'cast5-cbc'}
+OSSL_PRF = {'sha1': 'hmacWithSHA1', 'sha224': 'hmacWithSHA224',
+            'sha256': 'hmacWithSHA256', 'sha384': 'hmacWithSHA384',
+            'sha512': 'hmacWithSHA512'}
+
+
+def openssl_write_private(scr, k, fmt, enc, pw):
+    """The key `k` written by openssl in (fmt, enc) under passphrase pw, or
+    None if this openssl cannot produce it."""
+    clear = scr.write('ossl_clear', pyca_write_private(k.pyca_key,
+                                                       'pkcs8-pem', None))
+    out = scr.path('ossl_out')
+    if os.path.exists(out):
+        os.remove(out)
+    cipher, hash_name, pbe = enc
+    if fmt == 'pkcs1-pem':
+        args = ['pkey', '-in', clear, '-traditional', '-out', out,
+                '-' + OSSL_CIPHER[cipher], '-passout', 'pass:' + pw]
+    else:
+        args = ['pkcs8', '-topk8', '-in', clear, '-out', out,
+                '-passout', 'pass:' + pw]
+        if fmt == 'pkcs8-der':
+            args += ['-outform', 'DER']
+        if pbe == 1:
+            args += ['-v1', OSSL_V1[cipher, hash_name]]
+        else:
+            args += ['-v2', OSSL_CIPHER[cipher], '-v2prf',
+                     OSSL_PRF[hash_name]]
+    rc, _, _ = openssl(args)
+    if rc != 0 or not os.path.exists(out):
+        return None
+    with open(out, 'rb') as f:
+        return f.read()
+
+
+# one representative per key-derivation family
+KDF_FAMILIES = [
+    ('PEM legacy MD5 KDF / aes128', 'pkcs1-pem', ('aes128-cbc', 'sha256', 2)),
+    ('PEM legacy MD5 KDF / des3', 'pkcs1-pem', ('des3-cbc', 'sha256', 2)),
+    ('PBES1 PBKDF1-MD5 / des', 'pkcs8-pem', ('des-cbc', 'md5', 1)),
+    ('PBES1 PBKDF1-SHA1 / des', 'pkcs8-der', ('des-cbc', 'sha1', 1)),
+    ('PKCS#12 KDF / des3', 'pkcs8-pem', ('des3-cbc', 'sha1', 1)),
+    ('PKCS#12 KDF / des2', 'pkcs8-der', ('des2-cbc', 'sha1', 1)),
+    ('PKCS#12 KDF / rc4-128', 'pkcs8-pem', ('rc4-128', 'sha1', 1)),
+    ('PKCS#12 KDF / rc4-40', 'pkcs8-pem', ('rc4-40', 'sha1', 1)),
+    ('PBKDF2-SHA1 / aes128', 'pkcs8-der', ('aes128-cbc', 'sha1', 2)),
+    ('PBKDF2-SHA256 / aes256', 'pkcs8-pem', ('aes256-cbc', 'sha256', 2)),
+    ('PBKDF2-SHA512 / aes192', 'pkcs8-pem', ('aes192-cbc', 'sha512', 2)),
+    ('PBKDF2-SHA384 / des3', 'pkcs8-pem', ('des3-cbc', 'sha384', 2)),
+    ('PBKDF2-SHA224 / blowfish', 'pkcs8-pem', ('blowfish-cbc', 'sha224', 2)),
+]
+if BCRYPT:
+    KDF_FAMILIES.append(('bcrypt / aes256-ctr', 'openssh',
+                         ('aes256-ctr', 'sha256', 2)))
+
+# passphrase lengths around hash / cipher block boundaries
+PW_LENGTHS = [1, 2, 7, 8, 9, 15, 16, 17, 20, 24, 31, 32, 33, 47, 48, 55, 56,
+              63, 64, 65, 95, 96, 127, 128, 129]
+PW_LENGTHS_QUICK_SUBPROC = [1, 8, 16, 20, 31, 32, 63, 64, 65, 127]
+
+
+def passphrase_of(n, salt=0):
+    return ''.join(chr(33 + (i * 7 + n + salt) % 90) for i in range(n))
+
+
+PW_NONASCII = ['pässwörd', 'ключ-пароль-é', '鍵' * 31]
